@@ -58,9 +58,10 @@ reg(Spec("C01", "c01_diff.cpp", needs=("shim", "ref", "optable"),
 reg(Spec("C02", "c02_decode.cpp", needs=("shim", "optable"), custom="exhaustive",
          rule="complete enumeration of all 65536 first words (worker i takes words with w % 16 == i): O1 own match count over the "
               "repository's decode table (recording visitor) <= 1; O2 recorder / interpreter / disassembler / assembler agree on "
-              "defined-ness, handler and need for a second word; O3 execution from 4 (quick) / 16 (thorough) (second word, start "
+              "defined-ness, handler and need for a second word (interpreter = the table GetDecoderTable<Interpreter>() builds, i.e. what "
+              "Run() dispatches through); O3 execution from 4 (quick) / 16 (thorough) (second word, start "
               "address, state) combinations: fetch log and pc advance equal the declared length, a one-word form is followed by a "
-              "fetch from A+1; O4 every bit declared Unused<> in the table text, flipped, on 32/128 generated states: same text, same "
+              "fetch from A+1, and execution never trips the decoder's own consistency assertion; O4 every bit declared Unused<> in the table text, flipped, on 32/128 generated states: same text, same "
               "execution, and declared set == set of bits the recorder shows to be don't-care. Non-trivial = defined word; distinct = the word.",
          assumptions=["control-transfer handlers (br, brr, call*, ret*, movpdw, mov_pc) are exempt from the pc-advance clause, not from the fetch clause",
                       "instructions ending in Unimplemented / deliberate ASSERT make no length claim",
@@ -81,7 +82,8 @@ reg(Spec("C20", "c20_words.cpp", needs=("shim", "optable"), custom="exhaustive",
          rule="D1: each of the 19 words x all 65536 values (worker i takes v % 16 == i) x 8 (quick) / 64 (thorough) generated "
               "register states through RegisterState::Set<>/Get<>: resulting state (every field incl. shadow banks) and read-back "
               "equal the golden layout model, 44 dual-view bit pairs + the TeakLite limit flag agree, Set(Get()) is the identity "
-              "without an active loop; D1i sampled values through 'mov #imm16, W' and 'push W'; D2: every first word with ar/arp "
+              "without an active loop; D1i sampled values through 'mov #imm16, W', 'push W', 'pop W', 'mov b0l, W' and 'mov #imm5, icr' "
+              "(low five bits replaced, loop state untouched unless bit 4 is written 1); D2: every first word with ar/arp "
               "operands x 96 / 512 generated ar/arp words: register moved and cells accessed by the interpreter equal what the "
               "annotated disassembly names; D2m: the same cases under a generated addressing configuration (both cmd modes, modulo "
               "/ bit reversal / end pointers / 7- and 16-bit steps, registers at buffer edges): every register named with a step "
@@ -143,7 +145,8 @@ reg(Spec("C08", "c08_stack.cpp", needs=("shim", "optable"),
               "no active loop, nothing pending): call form {call, callr, calla axl, calla ax} x condition x return form {ret, rets "
               "#k, reti} x cpc {0,1}, return addresses with a carry into the upper word included (full-state equality + the two "
               "stack words); push X ; pop X for 13 push/pop families and every operand value; interrupt entry on int0-2 / "
-              "vectored with and without context switch + reti/retic; cntx s ; cntx r, banke f twice (all 64 flag sets), bankr "
+              "vectored with and without context switch + reti/retic, the handler being the bare return or 'mov #v, stt0 ; reti/retic "
+              "<cond>' with a flag condition that holds on v (and often fails on the interrupted stream's flags); cntx s ; cntx r, banke f twice (all 64 flag sets), bankr "
               "(4 forms) twice. Non-trivial = the pair actually moved something (taken call, non-zero pushed value, banks "
               "differ); distinct by hash of the encoded case.",
          assumptions=["saturation disabled, no hardware loop active, single-instruction repeat off (the property's preconditions)",
@@ -167,7 +170,8 @@ reg(Spec("C09", "c09_loops.cpp", needs=("shim", "optable"),
 reg(Spec("C17", "c17_reset.cpp", needs=("shim", "optable"),
          cases={"quick": 120, "thorough": 3000},
          rule="rapidcheck-generated pairs of API histories (P, Q), each <= 40 calls drawn from ProgramWrite / DataWrite / targeted "
-              "MMIOWrite (ICU routing, trigger, vectors; timer start/config incl. running timers; DMA channel window; AHBM; APBP "
+              "MMIOWrite (ICU routing, trigger, vectors; timer start/config incl. running timers and the directly writable counter "
+              "mirror cells; DMA channel window; AHBM; APBP "
               "reply/semaphore/interrupt-disable; BTDMP enable/FIFO; MIU pages/base) / SendData / RecvData / Set/Clear/MaskSemaphore / "
               "whole-register-state pokes / Run(<=200) of small programs that leave latches, the idle flag, banks and loop frames "
               "dirty / AHBM host accessors; two real instances whose heap was pre-filled with different byte patterns; mode fresh: Q "
@@ -216,7 +220,9 @@ reg(Spec("C11", "c11_memviews.cpp", needs=("shim", "optable"),
               "a bank (MIU_ZPAGE) and an MMIO window base (0x8000, 0, 0xF800, 0xFFFF, 0xFC00, unaligned, uniform); then every "
               "applicable reader among 12 paths must return the byte-array model's value and the whole 512 KiB array must equal "
               "the model; MMIO clause on 11 plain registers: DSP-path access reaches the register, leaves the memory underneath, "
-              "bypass does the opposite, guest load sees the register. Non-trivial = non-zero value written or MMIO clause "
+              "bypass does the opposite, guest load sees the register; the window is moved through the host accessor or, half of the "
+              "time (bank 0), by a DSP-path write to the window-base register inside the window it moves, which must not reach the "
+              "memory underneath either. Non-trivial = non-zero value written or MMIO clause "
               "exercised; distinct by hash of the encoded history.",
          assumptions=["page mode 0 (the property's default paging mode); z_page in {0,1}; the MMIO clause is exercised with z_page = 0 (else ToMMIO asserts)",
                       "A32 accessors take a 17-bit data address (upper bits ignored, as documented by their mask)",
@@ -261,7 +267,8 @@ reg(Spec("C18", "c18_safety.cpp", needs=("shim", "optable"),
               "widths (any pc incl. 0x3FFF8..0x3FFFF, 0xFFFC.., any 4-bit program page), Run(1..256), in-contract host calls "
               "(mailbox, semaphore, AHBM accessors with arbitrary 32-bit addresses, A32 accessors), programs of 1..12 words "
               "stratified over the decode table written at the current pc, DMA starts with arbitrary channel select, 32-bit "
-              "addresses, sizes, steps, spaces and AHBM bindings. Oracle: access observer (every SharedMemory access < 0x40000 "
+              "addresses, sizes, steps, spaces and AHBM bindings; plus single_step: one table-stratified instruction (and a following "
+              "word) on one boundary-biased full-width register state, one cycle (10x as many cases). Oracle: access observer (every SharedMemory access < 0x40000 "
               "words), outcome in {return, UnimplementedException, deliberate ASSERT}, no sanitizer report (worker death = "
               "violation with the saved case). Non-trivial = the sequence ran instructions or reached a peripheral and was not "
               "abandoned for its access budget (2^14 accesses); distinct by hash of the op list.",
@@ -277,7 +284,10 @@ reg(Spec("C19", "c19_threads.cpp", variant="tsan", needs=("optable", "lib"), wor
               "2..2000), DSP Run() slice sizes from {1,2,3,7,16,64,200,1000}, re-entrant host callbacks (RecvData / GetSemaphore / "
               "SendData from inside a handler); the DSP thread runs an echo program whose APBP handler reads all CMDi, replies, "
               "echoes the semaphore, rewrites the interrupt-disable register and acknowledges (a generated subset of the channels is "
-              "read; the others stay full after their first send). Oracle: ThreadSanitizer report "
+              "read; the others stay full after their first send; in half of the schedules the handler reads CMDi only when the "
+              "status register flags it ready, in half the host reads only after RecvDataIsReady), Sync ops = quiescent points "
+              "(host waits for >= 4000 further DSP cycles, then the last value of every echoed channel must have made the round "
+              "trip and be consumed or still flagged ready). Oracle: ThreadSanitizer report "
               "(exit code 66) = violation; per reading thread the values read are sent values in non-decreasing order; after "
               "the join a fixed single-threaded drain (64 x Run(256)) must leave the last value of each channel on both sides "
               "and >= 1 handler entry; then one more SendData per channel, each followed by 4 x Run(128), must each be followed by a new "
@@ -286,8 +296,11 @@ reg(Spec("C19", "c19_threads.cpp", variant="tsan", needs=("optable", "lib"), wor
               "distinct by hash of the schedule.",
          assumptions=["the OS scheduler is not owned: interleaving coverage is statistical (pauses and slice sizes perturb it); the race "
                       "clause does not share this weakness because ThreadSanitizer is happens-before based",
-                      "'eventually' is replaced by a bounded drain; a watchdog expiry would be reported as inconclusive, not as a violation",
-                      "logic failures that do not reproduce three times from the saved schedule are reported as notes, not violations"]))
+                      "'eventually' is replaced by a bounded drain / 4000 DSP cycles at a quiescent point (an interrupt is taken within a handler's length)",
+                      "a schedule that does not finish within 60 s (normally < 1 s) makes the worker save it and exit; it is a violation only if three "
+                      "replays in fresh processes hang as well (deadlock clause)",
+                      "the outcome of a schedule depends on the OS interleaving, the oracle does not: a logic failure counts once the same schedule "
+                      "fails again within 40 re-runs (no shrinking); otherwise it is reported as a note"]))
 
 # Properties not (yet) claimed. Kept current by hand; every id in properties.jsonl is either in SPECS or here.
 _PENDING = "check not built yet in this round; planned with property-based testing per DESIGN.md"
